@@ -24,6 +24,7 @@ from engine import numeval
 from . import common as C
 from .common import ctx_for
 from . import taylor
+from engine import fpcheck
 
 HARNESS = C.Harness("h_core.cpp", assertions=True, extra_defines=["VS_STUB_LARGE_INVERSE", "VS_NO_SMALLADJ"])
 
@@ -99,6 +100,7 @@ def check_group(rep, g, seed):
         generic.eq("closed", np.array(ve, dtype=object), np.array([generic.alg.R.zero] * len(ve), dtype=object))
     generic.check_safe()
     to_identity(rep, generic, Tout - sp.I())
+    fpcheck.compare(rep, generic, ["out"], 1e-9, "exp_value", n=10)
 
     for c in ctxs:
         if c is generic:
